@@ -1,7 +1,7 @@
 /- REGENERATED from /repo on every run by /verif/harness/cmd/extract — do not edit. -/
 namespace Ibx.Gen.RestFault
 
-/-- web.Handler.ServeHTTP: the fallible calls and the writes to the ResponseWriter in source order as (kind, callee, reaction to its error); kind = mgr | store | w | call | ctl; reactions: `<cond> => <action> ; …` over err / res / ErrNotExist / nil, `tail` (returned as it is), `ignored`, `then return-err` (harness/cmd/extract/rest_fault.go has the notation) -/
+/-- web.Handler.ServeHTTP: the fallible calls and the writes to the ResponseWriter in execution order as (kind, callee, reaction to its error); kind = mgr | store | w | call | ctl; reactions: `<cond> => <action> ; …` over err / res / ErrNotExist / nil (the decision table of the call as a first-match rule list), `tail` (the call's results are the function's), `ignored`, `then return-err` (harness/cmd/extract/rest_fault.go has the notation) -/
 def wrapper : List (String × String × String) := [("call", "web.NewContext", "err != nil => http.Error:500+return"), ("w", "handler", "err != nil => http.Error:500+return")]
 
 /-- the store-facing methods of message.StoreManager -/
@@ -26,15 +26,15 @@ def handlers : List (String × List (String × String × String)) := [
   ("MailboxSource", [("mgr", "MailboxForAddress", "err != nil => return-err"), ("mgr", "SourceReader", "err == ErrNotExist => http.NotFound+return-nil ; err != nil => return-wrapped"), ("w", "io.Copy", "then return-err")]),
   ("MailboxViewAttach", [("mgr", "MailboxForAddress", "err != nil => return-err"), ("call", "strconv.ParseUint", "err != nil => return-err"), ("mgr", "GetMessage", "err == ErrNotExist => http.NotFound+return-nil ; err != nil => return-wrapped"), ("ctl", "if", ""), ("ctl", "return-wrapped", ""), ("ctl", "end", ""), ("w", "ResponseWriter.Write", "then return-err")])]
 
-/-- per handler every use of storage.ErrNotExist, in source order: == | != (comparison of identity) | Is (errors.Is) | case | other -/
+/-- per handler HOW storage.ErrNotExist is used in it and in the unexported functions of its package it reaches, as a sorted set: == (a comparison of identity: ==, != or a case of a tagged switch) | Is (errors.Is) | other -/
 def notExistTests : List (String × List String) := [
   ("MailboxListV1", []),
-  ("MailboxShowV1", ["!="]),
+  ("MailboxShowV1", ["=="]),
   ("MailboxMarkSeenV1", ["=="]),
   ("MailboxPurgeV1", []),
-  ("MailboxSourceV1", ["!="]),
+  ("MailboxSourceV1", ["=="]),
   ("MailboxDeleteV1", ["=="]),
-  ("MailboxMessage", ["!="]),
+  ("MailboxMessage", ["=="]),
   ("MailboxHTML", ["=="]),
   ("MailboxSource", ["=="]),
   ("MailboxViewAttach", ["=="])]
